@@ -218,3 +218,128 @@ pub fn input_alphabet(node: &Node, f: Flags, extra: &[char]) -> Vec<char> {
     a.push('z');
     a
 }
+
+/// Build an input that is likely to contain matches: strings sampled from the pattern's own language (choices taken
+/// from the raw index vector), glued together with a little random filler. Anchors are ignored and classes are sampled
+/// from a small candidate list, so the result is a good guess, not a guaranteed match.
+pub fn sample_input(node: &Node, f: Flags, raw: &[u16], alphabet: &[char]) -> String {
+    struct S<'a> {
+        raw: &'a [u16],
+        k: usize,
+        caps: Vec<Option<String>>,
+        i: bool,
+        budget: usize,
+    }
+    impl<'a> S<'a> {
+        fn pick(&mut self, n: usize) -> usize {
+            let v = if self.raw.is_empty() { 0 } else { self.raw[self.k % self.raw.len()] as usize };
+            self.k += 1;
+            if n == 0 {
+                0
+            } else {
+                (v.wrapping_mul(31).wrapping_add(self.k * 7)) % n
+            }
+        }
+        fn class_member(&mut self, ce: &ClassExpr, extra: &[char]) -> Option<char> {
+            let mut cands: Vec<char> = vec![];
+            fn ends(ce: &ClassExpr, v: &mut Vec<char>) {
+                for it in &ce.items {
+                    match it {
+                        Item::Char(c) => v.push(*c),
+                        Item::Range(a, b) => {
+                            v.push(*a);
+                            v.push(*b);
+                            if let Some(m) = char::from_u32((*a as u32 + *b as u32) / 2) {
+                                v.push(m);
+                            }
+                        }
+                        Item::Esc(_) => {}
+                    }
+                }
+                if let Some(s) = &ce.sub {
+                    ends(s, v);
+                }
+            }
+            ends(ce, &mut cands);
+            cands.extend(extra.iter().cloned());
+            cands.extend(['a', 'b', '1', ' ', 'A', 'z', 'é', '-', '\n', 'x', '7', 'Q']);
+            let n = cands.len();
+            let start = self.pick(n);
+            (0..n).map(|d| cands[(start + d) % n]).find(|c| ucd::class_contains(ce, *c, self.i))
+        }
+        fn go(&mut self, n: &Node, out: &mut String, alphabet: &[char]) {
+            if self.budget == 0 {
+                return;
+            }
+            self.budget -= 1;
+            match n {
+                Node::Empty | Node::Bol | Node::Eol => {}
+                Node::Lit(c) => {
+                    let c = if self.i && self.pick(3) == 0 { ucd::counterpart(*c).unwrap_or(*c) } else { *c };
+                    out.push(c)
+                }
+                Node::Dot => out.push(alphabet[self.pick(alphabet.len())]),
+                Node::Class(ce) => {
+                    if let Some(c) = self.class_member(ce, alphabet) {
+                        out.push(c)
+                    }
+                }
+                Node::Esc(e) => {
+                    let cands = ['a', '1', ' ', 'A', 'é', '-', '\n', 'z', '7', '_', ':'];
+                    let st = self.pick(cands.len());
+                    if let Some(c) = (0..cands.len()).map(|d| cands[(st + d) % cands.len()]).find(|c| ucd::esc_contains(e, *c)) {
+                        out.push(c)
+                    }
+                }
+                Node::Group(k, b) => {
+                    let mut t = String::new();
+                    self.go(b, &mut t, alphabet);
+                    if *k != 0 && *k != CAP {
+                        let k = *k as usize;
+                        if self.caps.len() <= k {
+                            self.caps.resize(k + 1, None);
+                        }
+                        self.caps[k] = Some(t.clone());
+                    }
+                    out.push_str(&t);
+                }
+                Node::Alt(v) => {
+                    let b = self.pick(v.len());
+                    self.go(&v[b], out, alphabet)
+                }
+                Node::Cat(v) => {
+                    for c in v {
+                        self.go(c, out, alphabet)
+                    }
+                }
+                Node::Rep { body, min, max, .. } => {
+                    let hi = max.map_or(*min + 2, |m| m.min(*min + 2));
+                    let cnt = *min + self.pick((hi - *min + 1) as usize) as u32;
+                    for _ in 0..cnt.min(4) {
+                        self.go(body, out, alphabet)
+                    }
+                }
+                Node::BackRef(k) => {
+                    if let Some(Some(t)) = self.caps.get(*k as usize) {
+                        let t = t.clone();
+                        out.push_str(&t)
+                    }
+                }
+            }
+        }
+    }
+    let mut s = S { raw, k: 0, caps: vec![], i: f.i, budget: 60 };
+    let mut out = String::new();
+    let pieces = 1 + s.pick(2);
+    for _ in 0..pieces {
+        let junk = s.pick(3);
+        for _ in 0..junk {
+            out.push(alphabet[s.pick(alphabet.len())]);
+        }
+        s.go(node, &mut out, alphabet);
+    }
+    if s.pick(2) == 0 {
+        out.push(alphabet[s.pick(alphabet.len())]);
+    }
+    out
+}
